@@ -34,7 +34,7 @@ namespace c14
     }
 
     // bit patterns of the floats/doubles x = q * 2^s (both signs are added by the caller) whose q is a convergent or semi-convergent denominator
-    // of alpha_s, for every s at which x is representable; plus fl(n * pi/2) for small n (the Cody-Waite range)
+    // of alpha_s, for every s at which x is representable (and the same q one binade lower: multiples of pi/4); plus fl(n * pi/4) for small n
     inline void nearpi_table(bool f32, std::vector<uint64_t>& out)
     {
         const int mant = f32 ? 24 : 53;
@@ -71,13 +71,18 @@ namespace c14
                 unsigned __int128 a = r0 / r1, r2 = r0 % r1;
                 unsigned __int128 qn = a * q1 + q0;
                 // semi-convergents q0 + t*q1, t = 1 .. a-1 (the ends and the middle are enough), then the convergent itself
+                // x = q * 2^s is close to a multiple of pi/2; x = q * 2^(s-1) is then just as close to a multiple of pi/4
+                // (the odd ones are the quadrant boundaries of the reduction)
                 if (a > 1)
                 {
                     emit(q0 + q1, s);
                     emit(q0 + (a - 1) * q1, s);
                     emit(q0 + (a / 2) * q1, s);
+                    emit(q0 + q1, s - 1);
+                    emit(q0 + (a - 1) * q1, s - 1);
                 }
                 emit(qn, s);
+                emit(qn, s - 1);
                 if (qn >> mant)
                     break;
                 q0 = q1;
@@ -86,9 +91,9 @@ namespace c14
                 r1 = r2;
             }
         }
-        for (int n = 1; n < 4096; ++n)
+        for (int n = 1; n < 8192; ++n)
         {
-            double d = n * 1.5707963267948966;
+            double d = n * 0.78539816339744831; // fl(n * pi/4): the medium (Cody-Waite) range
             if (f32)
             {
                 float f = (float)d;
